@@ -64,8 +64,8 @@ def main():
         shutil.copy(os.path.join(src, "demo_test.go"), demo_dst)
         demo_cmd = meta["demo_cmd"]
         # normalise the command to run inside the worktree
-        for pre in ("/tmp/seed-%s" % name.split("-")[0], "/tmp/seed2-%s" % name.split("-")[0], "/tmp/seed3-%s" % name.split("-")[0]):
-            demo_cmd = demo_cmd.replace(pre, wt)
+        import re as _re0
+        demo_cmd = _re0.sub(r"/tmp/seed\d*-%s\b" % name.split("-")[0], wt, demo_cmd)
         # seeders sometimes put the copy of the demo into the command; the demo is already in place here
         import re as _re
         demo_cmd = _re.sub(r"cp\s+\S*demo_test\.go\s+\S+\s*(&&|;)\s*", "", demo_cmd)
